@@ -36,3 +36,7 @@ Definition pcmp (r : res (pbox FN)) (out : pout) : nat :=
   | Raise e, PExc code => if Nat.eqb (exn_code e) code then 0 else 2
   | _, _ => 2 end.
 Definition acheck (c : acase) : nat := let '(o, d, x, y, out) := c in pcmp (api o d x y) out.
+
+(* ---- Staircase.balchprod called directly (the Balch product without the naive bound) ---- *)
+Definition balchcase := ((list float * list float) * (list float * list float) * pout)%type.
+Definition balchcheck (c : balchcase) : nat := let '(x, y, out) := c in pcmp (m_balchprod FN steps plo phi mul_fuel x y) out.
